@@ -50,6 +50,30 @@ theorem split_exact (L : Limits) (m : Bytes) :
     (split m L.chunk).flatten = m ∧ (∀ c ∈ split m L.chunk, c.length ≤ L.chunk) ∧ split m L.chunk ≠ [] :=
   ⟨split_flatten m L.chunk L.chunk_pos, split_bound m L.chunk L.chunk_pos, split_ne_nil m L.chunk⟩
 
+/-- **split_covers**: for EVERY message length (also beyond any limit) the chunks of `split` concatenate to
+the whole buffer, there are exactly ⌈len / chunk⌉ of them (one empty chunk for the empty message) — no
+cap on their number — and their lengths are the ones `splitLens` computes from the length alone, which
+add up to the length. A `split` that stops after some number of chunks drops the tail of the message. -/
+theorem split_covers (L : Limits) (m : Bytes) :
+    (split m L.chunk).flatten = m ∧
+    (m.length ≠ 0 → (split m L.chunk).length = (m.length + L.chunk - 1) / L.chunk) ∧
+    (split m L.chunk).map List.length = splitLens m.length L.chunk ∧
+    (splitLens m.length L.chunk).sum = m.length := by
+  refine ⟨split_flatten m L.chunk L.chunk_pos, fun h => ?_, split_lens_eq m L.chunk, ?_⟩
+  · have := congrArg List.length (split_lens_eq m L.chunk)
+    rw [List.length_map] at this
+    rw [this]; unfold splitLens; rw [if_neg h]
+    exact splitLensLoop_length L.chunk L.chunk_pos _ _ (by omega)
+  · unfold splitLens; split
+    · rename_i h; simp [h]
+    · exact splitLensLoop_sum L.chunk L.chunk_pos _ _ (by omega)
+
+/-- at the real constants: a message of 255,987,201 bytes (one more than 256 full chunks) needs a 257th
+packet, and the largest legal message (256,000,000 bytes) ends with a 12,800-byte packet -/
+example : (splitLens 255987201 Limits.code.chunk).length = 257 ∧ (splitLens 255987201 Limits.code.chunk).getLast? = some 1 ∧
+    (splitLens 256000000 Limits.code.chunk).length = 257 ∧ (splitLens 256000000 Limits.code.chunk).getLast? = some 12800 ∧
+    (splitLens 255987200 Limits.code.chunk).length = 256 := by decide +kernel
+
 /-- … and a receiver that sees exactly these packets on an idle topic assembles exactly the message -/
 theorem packets_reassemble (L : Limits) (t : Nat) (m : Bytes) (h : m.length ≤ L.maxMsg) :
     assembleOk L [] (packetsOf L t m) = some [m] := assembleOk_packetsOf L t m h
